@@ -82,7 +82,7 @@ class TLCResult:
         m = re.search(r"Error: Action property (\S+) is violated", out)
         if m:
             self.violation = m.group(1)
-        if "Temporal properties were violated" in out:
+        if "Temporal properties were violated" in out or re.search(r"Temporal property \S+ was violated", out):
             self.violation = "temporal"
         self.ok = (rc == 0) and "Model checking completed. No error has been found." in out
         self.post_failed = "is violated" in out and "POSTCONDITION" in out.upper() or "Postcondition" in out and "violated" in out
